@@ -367,8 +367,8 @@ def oracle(case, obs):
                         more = [p for p in got if p not in expected]
                         out.append("all-schemes-result-wrong missing=%s wrong-layout=%s unexpected=%s %s" % (miss[:3], wrong[:3], more[:3], where))
             else:
-                if st == "ok" and new:
-                    out.append("well-formed-registration-rejected %s %s" % (o["exc"], where))
+                if st == "ok" and sure:
+                    out.append("%s-registration-rejected %s %s" % ("well-formed" if new else "repeated", o["exc"], where))
                 if prev_look is not None and stp["look"] != prev_look:
                     out.append("failed-registration-changed-registry " + where)
         # the universe after the operation
